@@ -31,6 +31,7 @@ package main
 import (
 	"context"
 	"encoding/json"
+	"errors"
 	"fmt"
 	"os"
 	"os/exec"
@@ -143,6 +144,7 @@ func init() {
 
 type rep struct {
 	isErr bool
+	ioErr bool // an error that does not come from the decoder (open/read failure other than not-exist)
 	val   int
 }
 
@@ -178,9 +180,13 @@ func (r *recArgs) ReportNewValue(_ context.Context, val reflect.Value) error {
 func (r *recArgs) BlockingReportNewValue(ctx context.Context, val reflect.Value) error {
 	return r.ReportNewValue(ctx, val)
 }
-func (r *recArgs) ReportError(_ context.Context, _ error) error {
+func (r *recArgs) ReportError(_ context.Context, err error) error {
+	if os.Getenv("C17_DEBUG") != "" {
+		fmt.Fprintf(os.Stderr, "c17 debug: reported error: %v\n", err)
+	}
+	var de *file.DecoderErr
 	r.mu.Lock()
-	r.reports = append(r.reports, rep{isErr: true})
+	r.reports = append(r.reports, rep{isErr: true, ioErr: !errors.As(err, &de)})
 	r.mu.Unlock()
 	return nil
 }
@@ -192,6 +198,7 @@ func (r *recArgs) Done(context.Context) {
 
 type obs struct {
 	nvals, nerrs int
+	nio          int // errors that did not come from the decoder
 	last         int // last reported value (-1 none)
 	lastErr      bool
 	dup          bool // two consecutive value reports carried the same value
@@ -205,6 +212,9 @@ func (r *recArgs) snapshot() obs {
 	for _, x := range r.reports {
 		if x.isErr {
 			o.nerrs++
+			if x.ioErr {
+				o.nio++
+			}
 			o.lastErr = true
 		} else {
 			o.nvals++
@@ -707,6 +717,7 @@ func runQuiescent(in input) driver.Result {
 	kinds := map[string]bool{}
 	changes := 0
 	prevCid, prevExists := 0, true
+	prevNio := 0
 	record := func(term string, o op, transient bool) bool {
 		if o.K == "reload" && !r.sendReload() {
 			res.Direct = append(res.Direct, "watch loop did not take an explicit reload within 15s")
@@ -729,10 +740,14 @@ func runQuiescent(in input) driver.Result {
 		for _, x := range w.dead {
 			deadTerms = append(deadTerms, fmt.Sprint(x))
 		}
-		steps = append(steps, fmt.Sprintf("mkStep %s %s %s %d %s %s %s %s %s %d %d %s %s",
+		steps = append(steps, fmt.Sprintf("mkStep %s %s %s %d %s %s %s %s %s %d %d %d %s %s",
 			term, coqRead(exists, cid), optPath(w, exists, resolved), w.ino, coqfmt.List(deadTerms), coqfmt.List(goneTerms),
 			coqfmt.Bool(transient), coqfmt.List(evTerms), w.symList(r.ws.VerifWatchList()),
-			ob.nvals, ob.nerrs, optN(ob.last), coqfmt.Bool(ob.lastErr)))
+			ob.nvals, ob.nerrs, ob.nio, optN(ob.last), coqfmt.Bool(ob.lastErr)))
+		if ob.nio > prevNio {
+			res.Tags = append(res.Tags, "q-io-error-reported")
+		}
+		prevNio = ob.nio
 		if exists != prevExists || cid != prevCid {
 			changes++
 		}
